@@ -88,19 +88,41 @@ where
 ///
 /// * `start` - The starting value of the range.
 /// * `end` - The end value of the range (exclusive).
-/// * `step` - The step size between values.
+/// * `step` - The step size between values, must not be zero.
+///
+/// The result contains `start + k * step` for every `k = 0, 1, ...` that lies
+/// strictly before `end` in the direction of `step`; it is empty if `end` is not
+/// beyond `start` in that direction.
+///
+/// # Panics
+///
+/// Panics if `step` is zero.
 #[inline]
 pub fn range<T>(a: T, b: T, step: T) -> Linspace<T>
 where
     T: Number,
     usize: Cast<T>,
 {
-    let len = b - a;
-    let steps = (len / step).ceil();
+    let zero = T::zero();
+    assert!(step != zero, "the step of a range must not be zero");
+    let len = if (step > zero && b > a) || (step < zero && b < a) {
+        // `span` and `step` have the same sign, so the quotient is positive
+        let span = b - a;
+        let mut steps = (span / step).ceil();
+        // integer division truncates (and `ceil` is the identity on integers), so a
+        // trailing partial step is not counted yet
+        let covered = steps * step;
+        if (step > zero && covered < span) || (step < zero && covered > span) {
+            steps += T::one();
+        }
+        steps.cast()
+    } else {
+        0
+    };
     Linspace {
         start: a,
         step,
-        len: steps.cast(),
+        len,
         index: 0,
     }
 }
